@@ -265,6 +265,7 @@ pub fn gen_txn(rng: &mut Rng, cid: &str, tno: usize, o: &GenOpts) -> (String, Ve
         kinds.push("ext_in_block");
         kinds.push("ext_suspend");
         kinds.push("ext_named_in_block");
+        kinds.push("ext_local_batches_in_block");
     }
     if o.allow_copy {
         kinds.push("copy_in");
@@ -422,6 +423,41 @@ pub fn gen_txn(rng: &mut Rng, cid: &str, tno: usize, o: &GenOpts) -> (String, Ve
             q(&mut steps, "end", &mut |qid| {
                 proto::query(&format!("COMMIT {}", tag(cid, qid, "")))
             });
+        }
+        "ext_local_batches_in_block" => {
+            // inside a transaction: batches that a pooler with statement caching on answers itself
+            // (Parse of a text it already knows under another name; Close of a named statement),
+            // with ordinary statements in between: all of it is ONE transaction on ONE server
+            q(&mut steps, "begin", &mut |qid| proto::query(&format!("BEGIN {}", tag(cid, qid, ""))));
+            let n1 = format!("l1_{}_{}", cid, tno);
+            let n2 = format!("l2_{}_{}", cid, tno);
+            let text = format!("SELECT 1 /*v c={} q={}.t{}.shared rows=1 */", cid, cid, tno);
+            let (t1, t2) = (text.clone(), text.clone());
+            let (a1, a2, a3) = (n1.clone(), n2.clone(), n1.clone());
+            q(&mut steps, "batch_named_parse", &mut |_qid| {
+                let mut b = proto::parse(&a1, &t1, &[]);
+                b.extend(proto::sync());
+                b
+            });
+            q(&mut steps, "batch_named_parse", &mut |_qid| {
+                let mut b = proto::parse(&a2, &t2, &[]);
+                b.extend(proto::sync());
+                b
+            });
+            q(&mut steps, "simple", &mut |qid| proto::query(&sel(rng, cid, qid, o, "")));
+            q(&mut steps, "batch_close", &mut |_qid| {
+                let mut b = proto::close(b'S', &a3);
+                b.extend(proto::sync());
+                b
+            });
+            q(&mut steps, "simple", &mut |qid| proto::query(&sel(rng, cid, qid, o, "")));
+            let a4 = n2.clone();
+            q(&mut steps, "batch_close", &mut |_qid| {
+                let mut b = proto::close(b'S', &a4);
+                b.extend(proto::sync());
+                b
+            });
+            q(&mut steps, "end", &mut |qid| proto::query(&format!("COMMIT {}", tag(cid, qid, ""))));
         }
         "copy_in" | "copy_fail" | "copy_in_block" => {
             if kind == "copy_in_block" {
